@@ -163,3 +163,51 @@ func matching(err error) []sentinel {
 	}
 	return r
 }
+
+// decode3Keep is decode3 that, on failure, returns the receiver left behind (constructor
+// receivers only) instead of nil pointers.
+func decode3Keep(level spec.Level, s string, nilRecv bool) (obj3, error) {
+	if nilRecv {
+		return decode3(level, s, true)
+	}
+	o := obj3{level: level}
+	var err error
+	switch level {
+	case spec.Base:
+		r := m3.NewBase()
+		_, err = r.Decode(s)
+		o.B = r
+	case spec.Temporal:
+		r := m3.NewTemporal()
+		_, err = r.Decode(s)
+		o.T, o.B = r, r.BaseMetrics()
+	default:
+		r := m3.NewEnvironmental()
+		_, err = r.Decode(s)
+		o.E, o.T, o.B = r, r.TemporalMetrics(), r.BaseMetrics()
+	}
+	return o, err
+}
+
+func decode2Keep(level spec.Level, s string, nilRecv bool) (obj2, error) {
+	if nilRecv {
+		return decode2(level, s, true)
+	}
+	o := obj2{level: level}
+	var err error
+	switch level {
+	case spec.Base:
+		r := m2.NewBase()
+		_, err = r.Decode(s)
+		o.B = r
+	case spec.Temporal:
+		r := m2.NewTemporal()
+		_, err = r.Decode(s)
+		o.T, o.B = r, r.BaseMetrics()
+	default:
+		r := m2.NewEnvironmental()
+		_, err = r.Decode(s)
+		o.E, o.T, o.B = r, r.TemporalMetrics(), r.BaseMetrics()
+	}
+	return o, err
+}
